@@ -537,6 +537,43 @@ pub fn run(rec: &mut Recorder, cases_path: &str, thorough: bool, seed: u64, kind
     for be in ALL {
         total += crate::with_backend!(be, for_backend(rec, &cases, thorough, seed, kinds));
     }
+    // key ids as values: equality, ordering and hashing must agree with their 33 bytes
+    if kinds.iter().any(|k| k == "keyid") {
+        use paseto_core::paserk::KeyId;
+        use std::hash::{Hash, Hasher};
+        let mut rng = Prng::new(seed, "idcmp");
+        let mk = |b: &[u8]| -> KeyId<paseto_v4::core::V4, Local> { format!("k4.lid.{}", crate::b64::enc(b)).parse().expect("33-byte id parses") };
+        let hash = |k: &KeyId<paseto_v4::core::V4, Local>| {
+            let mut h = std::collections::hash_map::DefaultHasher::new();
+            k.hash(&mut h);
+            h.finish()
+        };
+        let mut pairs: Vec<(Vec<u8>, Vec<u8>)> = Vec::new();
+        for pos in 0..33usize {
+            // equal up to `pos`, then differing in one byte (both directions), and fully equal
+            let a = rng.bytes(33);
+            let mut b = a.clone();
+            b[pos] = b[pos].wrapping_add(1 + rng.below(254) as u8);
+            pairs.push((a.clone(), b.clone()));
+            pairs.push((b, a.clone()));
+            pairs.push((a.clone(), a));
+        }
+        for _ in 0..300 {
+            pairs.push((rng.bytes(33), rng.bytes(33)));
+        }
+        for (a, b) in pairs {
+            let (ka, kb) = (mk(&a), mk(&b));
+            let c = match ka.cmp(&kb) {
+                std::cmp::Ordering::Less => -1,
+                std::cmp::Ordering::Equal => 0,
+                std::cmp::Ordering::Greater => 1,
+            };
+            let pc = ka.partial_cmp(&kb).map(|o| o as i32).unwrap_or(9);
+            rec.emit(json!({"fn":"idcmp","a":crate::rec::codes(&a),"b":crate::rec::codes(&b),"cmp":c,"partial_cmp":pc,"eq":ka == kb,"hash_eq":hash(&ka) == hash(&kb),
+                "bytes_back": ka.as_bytes()[..] == a[..] && kb.as_bytes()[..] == b[..]}));
+            total += 1;
+        }
+    }
     // the evaluator's own non-cryptographic primitive, held to Ctr.tla
     let mut rng = Prng::new(seed, "inc128");
     for k in 0..400u64 {
